@@ -384,116 +384,146 @@ theorem fill_ok {α} : ∀ (as : List (Nat × α)) (out : List (Option α)),
       simp only [List.map_cons, List.mem_cons, not_or] at hj
       rw [hb j hj.2, List.getElem?_set_ne (Ne.symm hj.1)]
 
-theorem fill_oob {α} : ∀ (as : List (Nat × α)) (out : List (Option α)),
-    (as.map Prod.fst).Nodup → (∀ i ∈ as.map Prod.fst, i < out.length → out[i]? = some none) →
-    (∃ i ∈ as.map Prod.fst, out.length ≤ i) → fill out as = .panic oobSite := by
-  intro as
-  induction as with
-  | nil => intro out _ _ h; obtain ⟨i, hi, _⟩ := h; cases hi
-  | cons x rest ih =>
-    intro out hnd hfree hex
-    obtain ⟨i, v⟩ := x
-    simp only [List.map_cons, List.nodup_cons] at hnd
-    rcases Nat.lt_or_ge i out.length with hlt | hge
-    · have hi : out[i]? = some none := hfree i (by simp) hlt
-      simp only [fill, setSlot, hi]
-      apply ih _ hnd.2
-      · intro i' hi' hlt'
-        have hne : i ≠ i' := by intro h; subst h; exact hnd.1 hi'
-        rw [List.getElem?_set_ne hne]
-        exact hfree i' (by simp only [List.map_cons, List.mem_cons]; exact Or.inr hi') (by simpa using hlt')
-      · obtain ⟨j, hj, hjl⟩ := hex
-        simp only [List.map_cons, List.mem_cons] at hj
-        rcases hj with h | h
-        · subst h; omega
-        · exact ⟨j, h, by simpa using hjl⟩
-    · simp only [fill, setSlot, List.getElem?_eq_none hge]
+theorem foldl_max_ge : ∀ (xs : List Nat) (n : Nat), n ≤ xs.foldl Nat.max n ∧ ∀ x ∈ xs, x ≤ xs.foldl Nat.max n := by
+  intro xs
+  induction xs with
+  | nil => intro n; exact ⟨Nat.le_refl _, fun x hx => by cases hx⟩
+  | cons y ys ih =>
+    intro n
+    obtain ⟨h1, h2⟩ := ih (Nat.max n y)
+    simp only [List.foldl_cons]
+    refine ⟨Nat.le_trans (Nat.le_max_left n y) h1, ?_⟩
+    intro x hx
+    rcases List.mem_cons.mp hx with h | h
+    · subst h; exact Nat.le_trans (Nat.le_max_right n x) h1
+    · exact h2 x h
 
-theorem allSome_spec {α} : ∀ (out : List (Option α)),
-    (∀ j, j < out.length → ∃ v, out[j]? = some (some v)) →
-    ∃ vs, allSome out = some vs ∧ vs.length = out.length ∧ ∀ (j : Nat) (v : α), out[j]? = some (some v) → vs[j]? = some v := by
-  intro out
-  induction out with
-  | nil => intro _; exact ⟨[], rfl, rfl, fun j v h => by simp at h⟩
-  | cons x r ih =>
-    intro h
-    obtain ⟨v0, hv0⟩ := h 0 (by simp)
-    simp only [List.getElem?_cons_zero, Option.some.injEq] at hv0
-    subst hv0
-    obtain ⟨vs, hvs, hl, hg⟩ := ih (fun j hj => by
-      have := h (j + 1) (by simp; omega)
-      simpa using this)
-    refine ⟨v0 :: vs, by simp [allSome, hvs], by simp [hl], ?_⟩
-    intro j v hjv
-    cases j with
-    | zero => simp at hjv; simp [hjv]
-    | succ j => simp at hjv; simp [hg j v hjv]
+/-- every position `from_abi` recorded has a slot in the buffer of `into_vec` -/
+theorem positions_lt_numSlots (p : Parts) : ∀ i ∈ p.positions, i < numSlots p := by
+  intro i hi
+  have hge : ∀ e ∈ slotEnds p, e ≤ numSlots p := by
+    intro e he
+    exact Nat.le_trans ((foldl_max_ge (slotEnds p) 0).2 e he) (Nat.le_max_left _ _)
+  have : ∃ e ∈ slotEnds p, i < e := by
+    simp only [Parts.positions, List.mem_append] at hi
+    simp only [slotEnds, List.mem_append]
+    rcases hi with ((hj | hpl) | hsb) | ho
+    · cases hpj : p.jump with
+      | none => simp [hpj] at hj
+      | some info =>
+        obtain ⟨j, o⟩ := info
+        cases o <;> simp [hpj] at hj
+        · exact ⟨j + 2, Or.inl (Or.inl (Or.inl (by simp))), by omega⟩
+        · exact ⟨j + 2, Or.inl (Or.inl (Or.inl (by simp))), by omega⟩
+        · exact ⟨j + 1, Or.inl (Or.inl (Or.inl (by simp))), by omega⟩
+    · exact ⟨i + 1, Or.inl (Or.inl (Or.inr (List.mem_map.mpr ⟨i, hpl, rfl⟩))), by omega⟩
+    · cases hps : p.subId with
+      | none => simp [hps] at hsb
+      | some s =>
+        simp [hps] at hsb
+        exact ⟨s + 1, Or.inl (Or.inr (by simp)), by omega⟩
+    · obtain ⟨x, hx, rfl⟩ := List.mem_map.mp ho
+      exact ⟨x.1 + 1, Or.inr (List.mem_map.mpr ⟨x, hx, rfl⟩), by omega⟩
+  obtain ⟨e, he, hlt⟩ := this
+  exact Nat.lt_of_lt_of_le hlt (hge e he)
 
-theorem nonPadFrom_allPad : ∀ (es : PAbi) (k : Nat), es.all (·.enc.isPadding) = true → nonPadFrom k es = [] := by
-  intro es
-  induction es with
-  | nil => intro _ _; rfl
-  | cons e r ih =>
-    intro k h
-    simp only [List.all_cons, Bool.and_eq_true] at h
-    simp [nonPadFrom, h.1, ih (k + 1) h.2]
-
-/-- without padding before a real parameter the non-padding positions are `0, 1, .., n-1` -/
-theorem nonPadFrom_noInterior : ∀ (abi : PAbi) (k : Nat), noInteriorPadding abi = true →
-    nonPadFrom k abi = List.range' k (nonPadFrom k abi).length := by
+/-- **Dropping the empty slots.**  If exactly the slots at the non-padding positions of the signature are
+filled (and every such position has a slot), then the filled values, in order, are one per non-padding
+parameter, and putting the padding back (`expand`, what the decoder returns) puts every value at the
+signature position of its slot. -/
+theorem flatten_aligned {α} : ∀ (abi : PAbi) (k : Nat) (out : List (Option α)),
+    (∀ j, j < out.length → ((∃ v, out[j]? = some (some v)) ↔ k + j ∈ nonPadFrom k abi)) →
+    (∀ i ∈ nonPadFrom k abi, i < k + out.length) →
+    (out.filterMap id).length = (nonPadFrom k abi).length ∧
+    ∀ (pad : α) (j : Nat) (v : α), out[j]? = some (some v) → (expand pad abi (out.filterMap id))[j]? = some v := by
   intro abi
   induction abi with
-  | nil => intro k _; rfl
+  | nil =>
+    intro k out H B
+    have hnil : out.filterMap id = [] := by
+      rw [List.filterMap_eq_nil_iff]
+      intro a ha
+      obtain ⟨j, hj⟩ := List.mem_iff_getElem?.mp ha
+      have hlt : j < out.length := by
+        rcases Nat.lt_or_ge j out.length with h | h
+        · exact h
+        · rw [List.getElem?_eq_none h] at hj; cases hj
+      cases a with
+      | none => rfl
+      | some v => exact absurd ((H j hlt).mp ⟨v, hj⟩) (by simp [nonPadFrom])
+    refine ⟨by simp [hnil, nonPadFrom], ?_⟩
+    intro pad j v hjv
+    have hlt : j < out.length := by
+      rcases Nat.lt_or_ge j out.length with h | h
+      · exact h
+      · rw [List.getElem?_eq_none h] at hjv; cases hjv
+    exact absurd ((H j hlt).mp ⟨v, hjv⟩) (by simp [nonPadFrom])
   | cons e es ih =>
-    intro k h
-    simp only [noInteriorPadding] at h
-    by_cases hp : e.enc.isPadding = true
-    · simp only [hp, if_true] at h
-      simp [nonPadFrom, hp, nonPadFrom_allPad es (k + 1) h]
-    · have hp' : e.enc.isPadding = false := by simpa using hp
-      simp only [hp', Bool.false_eq_true, if_false] at h
-      have := ih (k + 1) h
-      simp only [nonPadFrom, hp', Bool.false_eq_true, if_false, List.length_cons, List.range'_succ]
-      rw [← this]
-
-theorem nonPadFrom_last : ∀ (es : PAbi) (k : Nat), es.all (·.enc.isPadding) = false →
-    ∃ i ∈ nonPadFrom k es, k + (nonPadFrom k es).length ≤ i + 1 := by
-  intro es
-  induction es with
-  | nil => intro k h; simp at h
-  | cons e r ih =>
-    intro k h
-    by_cases hp : e.enc.isPadding = true
-    · have hr : r.all (·.enc.isPadding) = false := by simpa [List.all_cons, hp] using h
-      obtain ⟨i, hi, hle⟩ := ih (k + 1) hr
-      exact ⟨i, by simpa [nonPadFrom, hp] using hi, by simp only [nonPadFrom, hp, if_true]; omega⟩
-    · have hp' : e.enc.isPadding = false := by simpa using hp
-      by_cases hr : r.all (·.enc.isPadding) = true
-      · refine ⟨k, by simp [nonPadFrom, hp'], ?_⟩
-        simp [nonPadFrom, hp', nonPadFrom_allPad r (k + 1) hr]
-      · have hr' : r.all (·.enc.isPadding) = false := by simpa using hr
-        obtain ⟨i, hi, hle⟩ := ih (k + 1) hr'
-        refine ⟨i, by simp only [nonPadFrom, hp', Bool.false_eq_true, if_false]; exact List.mem_cons_of_mem _ hi, ?_⟩
-        simp only [nonPadFrom, hp', Bool.false_eq_true, if_false, List.length_cons]; omega
-
-/-- with padding before a real parameter, some position is not below the number of real parameters -/
-theorem nonPadFrom_interior : ∀ (abi : PAbi) (k : Nat), noInteriorPadding abi = false →
-    ∃ i ∈ nonPadFrom k abi, k + (nonPadFrom k abi).length ≤ i := by
-  intro abi
-  induction abi with
-  | nil => intro k h; simp [noInteriorPadding] at h
-  | cons e es ih =>
-    intro k h
-    simp only [noInteriorPadding] at h
-    by_cases hp : e.enc.isPadding = true
-    · simp only [hp, if_true] at h
-      obtain ⟨i, hi, hle⟩ := nonPadFrom_last es (k + 1) h
-      exact ⟨i, by simpa [nonPadFrom, hp] using hi, by simp only [nonPadFrom, hp, if_true]; omega⟩
-    · have hp' : e.enc.isPadding = false := by simpa using hp
-      simp only [hp', Bool.false_eq_true, if_false] at h
-      obtain ⟨i, hi, hle⟩ := ih (k + 1) h
-      refine ⟨i, by simp only [nonPadFrom, hp', Bool.false_eq_true, if_false]; exact List.mem_cons_of_mem _ hi, ?_⟩
-      simp only [nonPadFrom, hp', Bool.false_eq_true, if_false, List.length_cons]; omega
+    intro k out H B
+    cases out with
+    | nil =>
+      have hnil : nonPadFrom k (e :: es) = [] := by
+        rw [List.eq_nil_iff_forall_not_mem]
+        intro i hi
+        have := B i hi
+        have := nonPadFrom_ge (e :: es) k i hi
+        simp at *; omega
+      exact ⟨by simp [hnil], fun pad j v h => by simp at h⟩
+    | cons o os =>
+      have hk_notin : k ∉ nonPadFrom (k + 1) es := by
+        intro h; have := nonPadFrom_ge es (k + 1) k h; omega
+      have H' : ∀ j, j < os.length → ((∃ v, os[j]? = some (some v)) ↔ (k + 1) + j ∈ nonPadFrom (k + 1) es) := by
+        intro j hj
+        have := H (j + 1) (by simp; omega)
+        simp only [List.getElem?_cons_succ] at this
+        rw [this]
+        have e1 : k + (j + 1) = k + 1 + j := by omega
+        by_cases hp : e.enc.isPadding = true
+        · simp [nonPadFrom, hp, e1]
+        · have hp' : e.enc.isPadding = false := by simpa using hp
+          simp only [nonPadFrom, hp', Bool.false_eq_true, if_false, List.mem_cons, e1]
+          constructor
+          · rintro (h | h)
+            · omega
+            · exact h
+          · intro h; exact Or.inr h
+      have B' : ∀ i ∈ nonPadFrom (k + 1) es, i < (k + 1) + os.length := by
+        intro i hi
+        have := B i (by
+          by_cases hp : e.enc.isPadding = true
+          · simpa [nonPadFrom, hp] using hi
+          · have hp' : e.enc.isPadding = false := by simpa using hp
+            simp only [nonPadFrom, hp', Bool.false_eq_true, if_false]; exact List.mem_cons_of_mem _ hi)
+        simp at this; omega
+      obtain ⟨ihl, ihg⟩ := ih (k + 1) os H' B'
+      have H0 := H 0 (by simp)
+      simp only [List.getElem?_cons_zero, Option.some.injEq, Nat.add_zero] at H0
+      by_cases hp : e.enc.isPadding = true
+      · have ho : o = none := by
+          cases o with
+          | none => rfl
+          | some v =>
+            have := H0.mp ⟨v, rfl⟩
+            simp only [nonPadFrom, hp, if_true] at this
+            exact absurd this hk_notin
+        subst ho
+        refine ⟨by simpa [nonPadFrom, hp] using ihl, ?_⟩
+        intro pad j v hjv
+        cases j with
+        | zero => simp at hjv
+        | succ j =>
+          simp only [List.getElem?_cons_succ] at hjv
+          simpa [expand, hp] using ihg pad j v hjv
+      · have hp' : e.enc.isPadding = false := by simpa using hp
+        obtain ⟨v0, hv0⟩ := H0.mpr (by simp [nonPadFrom, hp'])
+        subst hv0
+        refine ⟨by simpa [nonPadFrom, hp'] using ihl, ?_⟩
+        intro pad j v hjv
+        cases j with
+        | zero => simp at hjv; simp [expand, hp', hjv]
+        | succ j =>
+          simp only [List.getElem?_cons_succ] at hjv
+          simpa [expand, hp'] using ihg pad j v hjv
 
 theorem jumpAssigns_fst {α} (info : Nat × JumpOrder) (lt : α × α) :
     (jumpAssigns info lt).map Prod.fst = (match info with | (i, .loc) => [i] | (i, _) => [i, i + 1]) := by
@@ -532,108 +562,120 @@ theorem assigns_fst {α} (asInt : α → α) (p : Parts) (b : Builder α) (hs : 
       | none => rw [hps] at hsb; cases hsb
       | some i => rfl
 
-/-- **`into_vec` fills each position once — or indexes out of bounds.**  For every kind, every
-signature `from_abi` accepts and every builder that passes the four `assert_eq!`:
-
-* if all padding comes after the last real parameter, `into_vec` succeeds, returns exactly
-  `num_instr_args` values, and every value the builder holds is at the position `from_abi` assigned to it
-  (no slot is written twice, none is left empty: the two `is_none` / `expect` panics are unreachable);
-* if some padding parameter precedes a real parameter, `into_vec` **panics** with an index out of
-  bounds (the positions count padding, the buffer does not).  This is a defect of the unchanged code. -/
+/-- **`into_vec` fills each position once** (repaired code, /repo 11ec667).  For every kind, every
+signature `from_abi` accepts - padding anywhere, also before a real parameter - and every builder that passes
+the four `assert_eq!`: `into_vec` succeeds, returns exactly `num_instr_args` values (the final count assert is
+unreachable, like the two `is_none` asserts and the index checks), and every operand the builder holds is the
+value of the parameter at the signature position `from_abi` assigned to it: putting the padding back
+(`expand`: one value per parameter, what `encode_args` writes and the decoder returns) shows operand `x.2` at
+position `x.1`, for every write `x` of `into_vec`. -/
 theorem into_vec_fills_once {α} (asInt : α → α) (k : Kind) (abi : PAbi) (p : Parts) (b : Builder α)
     (h : fromAbi k abi = .ok p) (hs : shapeOk p b = true) :
-    (noInteriorPadding abi = true →
-      ∃ vs, intoVec asInt p b = .ok vs ∧ vs.length = p.numInstrArgs ∧
-        ∀ x ∈ assigns asInt p b, vs[x.1]? = some x.2) ∧
-    (noInteriorPadding abi = false → intoVec asInt p b = .panic oobSite) := by
+    ∃ vs, intoVec asInt p b = .ok vs ∧ vs.length = p.numInstrArgs ∧
+      ∀ (pad : α), ∀ x ∈ assigns asInt p b, (expand pad abi vs)[x.1]? = some x.2 := by
   obtain ⟨hperm, hnd, hn, _⟩ := intrinsic_placement k abi p h
   have hfst := assigns_fst asInt p b hs
-  constructor
-  · intro hni
-    have hrange := nonPadFrom_noInterior abi 0 hni
-    rw [← hn] at hrange
-    have hmem : ∀ i, i ∈ p.positions ↔ i < p.numInstrArgs := by
-      intro i
-      rw [hperm.mem_iff, hrange, List.mem_range']
-      constructor
-      · rintro ⟨j, hj, rfl⟩; omega
-      · intro hi; exact ⟨i, hi, by omega⟩
-    obtain ⟨out', hf, hl, ha, _⟩ := fill_ok (assigns asInt p b) (List.replicate p.numInstrArgs none)
-      (by rw [hfst]; exact hnd)
-      (by
-        intro i hi
-        rw [hfst] at hi
-        have := (hmem i).mp hi
-        simp [List.getElem?_replicate, this])
-    simp only [List.length_replicate] at hl
-    have hall : ∀ j, j < out'.length → ∃ v, out'[j]? = some (some v) := by
-      intro j hj
-      rw [hl] at hj
-      have hjm := (hmem j).mpr hj
-      rw [← hfst, List.mem_map] at hjm
-      obtain ⟨x, hx, hxj⟩ := hjm
+  have hlt := positions_lt_numSlots p
+  obtain ⟨out', hf, hl, ha, hb⟩ := fill_ok (assigns asInt p b) (List.replicate (numSlots p) none)
+    (by rw [hfst]; exact hnd)
+    (by
+      intro i hi
+      rw [hfst] at hi
+      simp [List.getElem?_replicate, hlt i hi])
+  simp only [List.length_replicate] at hl
+  have H : ∀ j, j < out'.length → ((∃ v, out'[j]? = some (some v)) ↔ 0 + j ∈ nonPadFrom 0 abi) := by
+    intro j hj
+    rw [Nat.zero_add, ← hperm.mem_iff, ← hfst]
+    constructor
+    · rintro ⟨v, hv⟩
+      by_cases hm : j ∈ (assigns asInt p b).map Prod.fst
+      · exact hm
+      · rw [hb j hm] at hv
+        rw [hl] at hj
+        simp [List.getElem?_replicate, hj] at hv
+    · intro hm
+      obtain ⟨x, hx, hxj⟩ := List.mem_map.mp hm
       exact ⟨x.2, by rw [← hxj]; exact ha x hx⟩
-    obtain ⟨vs, hvs, hvl, hvg⟩ := allSome_spec out' hall
-    refine ⟨vs, ?_, by rw [hvl, hl], fun x hx => hvg _ _ (ha x hx)⟩
-    simp only [intoVec, hs, Bool.not_true, Bool.false_eq_true, if_false, hf, hvs]
-  · intro hni
-    obtain ⟨i, hi, hle⟩ := nonPadFrom_interior abi 0 hni
-    have : fill (List.replicate p.numInstrArgs (none : Option α)) (assigns asInt p b) = .panic oobSite := by
-      apply fill_oob
-      · rw [hfst]; exact hnd
-      · intro j _ hj
-        simp only [List.length_replicate] at hj
-        simp [List.getElem?_replicate, hj]
-      · refine ⟨i, by rw [hfst]; exact hperm.mem_iff.mpr hi, ?_⟩
-        simp only [List.length_replicate]; omega
-    simp only [intoVec, hs, Bool.not_true, Bool.false_eq_true, if_false, this]
+  have B : ∀ i ∈ nonPadFrom 0 abi, i < 0 + out'.length := by
+    intro i hi
+    rw [Nat.zero_add, hl]
+    exact hlt i (hperm.mem_iff.mpr hi)
+  obtain ⟨hlen, hexp⟩ := flatten_aligned abi 0 out' H B
+  rw [← hn] at hlen
+  refine ⟨out'.filterMap id, ?_, hlen, fun pad x hx => hexp pad x.1 x.2 (ha x hx)⟩
+  simp only [intoVec, hs, Bool.not_true, Bool.false_eq_true, if_false, hf, hlen, bne_self_eq_false]
 
-/-- the first bullet on a non-trivial input: `CondJmp` on `SSto`, time before offset -/
+/-- on a non-trivial input: `CondJmp` on `SSto`, time before offset -/
 example : intoVec id ⟨4, [0, 1], [], some (2, .timeLoc), none⟩ (⟨some ("label", "time"), none, ["a", "b"], []⟩ : Builder String)
     = .ok ["a", "b", "time", "label"] := by decide
 
-/-- **The defect, on the smallest witness**: signature `_S` for an interrupt label.  `from_abi`
-accepts it and assigns position 1 to the argument, `into_vec` allocates one slot and indexes slot 1.
-(`trumsg compile` with `!ins_signatures 70 _S`, `!ins_intrinsics 70 Interrupt()` and `interrupt[3]:`
-panics at src/llir/lower/intrinsic.rs:98 "index out of bounds: the len is 1 but the index is 1".) -/
-theorem into_vec_padding_panics :
+/-- **The former defect, on its witness**: signature `_S` for an interrupt label.  `from_abi` assigns position 1
+to the argument; `into_vec` now allocates two slots, fills slot 1, drops the empty padding slot and returns
+the one argument.  (Before /repo 11ec667 it allocated `num_instr_args = 1` slots and `trumsg compile` with
+`!ins_signatures 70 _S`, `!ins_intrinsics 70 Interrupt()` and `interrupt[3]:` panicked at
+src/llir/lower/intrinsic.rs:98 "index out of bounds: the len is 1 but the index is 1".) -/
+theorem into_vec_padding_ok :
     fromAbi .interruptLabel [⟨.padding true, false⟩, ⟨.int .w4 true false false, false⟩] = .ok ⟨1, [1], [], none, none⟩ ∧
-    intoVec id ⟨1, [1], [], none, none⟩ (⟨none, none, [3], []⟩ : Builder Nat) = .panic oobSite := by decide
+    intoVec id ⟨1, [1], [], none, none⟩ (⟨none, none, [3], []⟩ : Builder Nat) = .ok [3] ∧
+    -- padding in the middle of a jump intrinsic: `S - o t` for `CountJmp`
+    fromAbi .countJmp [⟨.int .w4 true false false, false⟩, ⟨.padding false, false⟩, ⟨.jumpOffset, false⟩, ⟨.jumpTime, false⟩]
+      = .ok ⟨3, [], [(0, .natural)], some (2, .locTime), none⟩ ∧
+    intoVec id ⟨3, [], [(0, .natural)], some (2, .locTime), none⟩ (⟨some (100, 7), none, [], [10]⟩ : Builder Nat) = .ok [10, 100, 7] := by decide
 
-/-- `into_vec` never trips its own "slot already filled" / "slot not filled" checks -/
+/-- `into_vec` never panics on the parts of an accepted signature: not in an index, not in the two "slot
+already filled" asserts, not in the final count assert -/
 theorem into_vec_asserts_unreachable {α} (asInt : α → α) (k : Kind) (abi : PAbi) (p : Parts) (b : Builder α)
-    (h : fromAbi k abi = .ok p) (hs : shapeOk p b = true) :
-    intoVec asInt p b ≠ .panic filledSite ∧ intoVec asInt p b ≠ .panic unfilledSite := by
-  obtain ⟨h1, h2⟩ := into_vec_fills_once asInt k abi p b h hs
-  cases hni : noInteriorPadding abi with
-  | true => obtain ⟨vs, hv, _⟩ := h1 hni; rw [hv]; exact ⟨by simp, by simp⟩
-  | false =>
-    rw [h2 hni]
-    exact ⟨fun hh => absurd (Outcome.panic.inj hh) (by decide), fun hh => absurd (Outcome.panic.inj hh) (by decide)⟩
+    (h : fromAbi k abi = .ok p) (hs : shapeOk p b = true) (site : String) :
+    intoVec asInt p b ≠ .panic site := by
+  obtain ⟨vs, hv, _⟩ := into_vec_fills_once asInt k abi p b h hs
+  rw [hv]; simp
 
-/-! ## the raise side reads back the same positions -/
-
-theorem expand_noInterior {α} (pad : α) : ∀ (abi : PAbi) (k : Nat) (vs : List α), noInteriorPadding abi = true →
-    vs.length = (nonPadFrom k abi).length → ∃ tail, expand pad abi vs = vs ++ tail := by
+/-- `expand` puts the `kk`-th value at the signature position of the `kk`-th non-padding parameter -/
+theorem expand_at_nonPad {α} (pad : α) : ∀ (abi : PAbi) (k0 : Nat) (vs : List α) (kk i : Nat),
+    (nonPadFrom k0 abi)[kk]? = some i → (expand pad abi vs)[i - k0]? = vs[kk]? := by
   intro abi
   induction abi with
-  | nil => intro k vs _ hl; simp [nonPadFrom] at hl; subst hl; exact ⟨[], rfl⟩
+  | nil => intro k0 vs kk i h; simp [nonPadFrom] at h
   | cons e es ih =>
-    intro k vs h hl
-    simp only [noInteriorPadding] at h
+    intro k0 vs kk i h
     by_cases hp : e.enc.isPadding = true
-    · simp only [hp, if_true] at h
-      simp [nonPadFrom, hp, nonPadFrom_allPad es (k + 1) h] at hl
-      subst hl
-      exact ⟨_, (List.nil_append _).symm⟩
+    · simp only [nonPadFrom, hp, if_true] at h
+      have hge := nonPadFrom_ge es (k0 + 1) i (List.mem_of_getElem? h)
+      have e1 : i - k0 = (i - (k0 + 1)) + 1 := by omega
+      simp only [expand, hp, if_true, e1, List.getElem?_cons_succ]
+      exact ih (k0 + 1) vs kk i h
     · have hp' : e.enc.isPadding = false := by simpa using hp
-      simp only [hp', Bool.false_eq_true, if_false] at h
-      simp only [nonPadFrom, hp', Bool.false_eq_true, if_false, List.length_cons] at hl
+      simp only [nonPadFrom, hp', Bool.false_eq_true, if_false] at h
       cases vs with
-      | nil => simp at hl
+      | nil => simp [expand, hp']
       | cons v r =>
-        obtain ⟨tail, ht⟩ := ih (k + 1) r h (by simpa using hl)
-        exact ⟨tail, by simp [expand, hp', ht]⟩
+        cases kk with
+        | zero =>
+          simp only [List.getElem?_cons_zero, Option.some.injEq] at h
+          subst h
+          simp [expand, hp']
+        | succ kk =>
+          simp only [List.getElem?_cons_succ] at h
+          have hge := nonPadFrom_ge es (k0 + 1) i (List.mem_of_getElem? h)
+          have e1 : i - k0 = (i - (k0 + 1)) + 1 := by omega
+          simp only [expand, hp', Bool.false_eq_true, if_false, e1, List.getElem?_cons_succ]
+          exact ih (k0 + 1) r kk i h
+
+/-- `into_vec_fills_once` in terms of the returned vector itself: the `kk`-th value is the operand that was
+assigned to the position of the `kk`-th non-padding parameter -/
+theorem into_vec_kth_parameter {α} (asInt : α → α) (k : Kind) (abi : PAbi) (p : Parts) (b : Builder α) (vs : List α)
+    (h : fromAbi k abi = .ok p) (hs : shapeOk p b = true) (hv : intoVec asInt p b = .ok vs)
+    (kk i : Nat) (v : α) (hk : (nonPadFrom 0 abi)[kk]? = some i) (hx : (i, v) ∈ assigns asInt p b) :
+    vs[kk]? = some v := by
+  obtain ⟨vs', hv', _, hg⟩ := into_vec_fills_once asInt k abi p b h hs
+  rw [hv] at hv'
+  simp only [Outcome.ok.injEq] at hv'
+  subst hv'
+  have := expand_at_nonPad v abi 0 vs kk i hk
+  rw [Nat.sub_zero, hg v (i, v) hx] at this
+  exact this.symm
+
+/-! ## the raise side reads back the same positions -/
 
 theorem readAll_spec {α} (args : List α) : ∀ (xs : List (α × Nat)), (∀ x ∈ xs, args[x.2]? = some x.1) →
     readAll args (xs.map Prod.snd) = .ok (xs.map Prod.fst) := by
@@ -647,7 +689,8 @@ theorem readAll_spec {α} (args : List α) : ∀ (xs : List (α × Nat)), (∀ x
     simp only [List.map_cons, readAll, readAt, hx, hr]
 
 /-- **Lower then raise is the identity on the parts.**  For every kind, every accepted signature and
-every builder content: if `into_vec` succeeds, then reading the decoded argument list (one value per
+every builder content (padding anywhere in the signature): if `into_vec` succeeds - it always does for a
+builder of the right shape, `into_vec_fills_once` - then reading the decoded argument list (one value per
 parameter, padding included) at the positions of the same `IntrinsicInstrAbiParts` gives back the
 jump's label and time (the time only when the signature has a `t` parameter), the sub id, the
 outputs (as stored: `FloatAsInt` outputs re-encoded) and the plain arguments, each in order. -/
@@ -661,25 +704,11 @@ theorem raise_parts_inverse {α} (asInt : α → α) (pad : α) (k : Kind) (abi 
        b.subId,
        (b.outputs.zip p.outputs).map (fun x => encodeOut asInt x.2.2 x.1),
        b.plainArgs⟩ := by
-  obtain ⟨h1, h2⟩ := into_vec_fills_once asInt k abi p b h hs
-  have hni : noInteriorPadding abi = true := by
-    cases hc : noInteriorPadding abi with
-    | true => rfl
-    | false => rw [h2 hc] at hv; cases hv
-  obtain ⟨vs', hv', hl, hg⟩ := h1 hni
+  obtain ⟨vs', hv', hl, hg⟩ := into_vec_fills_once asInt k abi p b h hs
   rw [hv] at hv'
   simp only [Outcome.ok.injEq] at hv'
   subst hv'
-  obtain ⟨_, _, hn, _⟩ := intrinsic_placement k abi p h
-  obtain ⟨tail, ht⟩ := expand_noInterior pad abi 0 vs hni (by rw [hl, hn])
-  have hfull : ∀ x ∈ assigns asInt p b, (expand pad abi vs)[x.1]? = some x.2 := by
-    intro x hx
-    have hgx := hg x hx
-    have hlt : x.1 < vs.length := by
-      rcases Nat.lt_or_ge x.1 vs.length with hh | hh
-      · exact hh
-      · rw [List.getElem?_eq_none hh] at hgx; cases hgx
-    rw [ht, List.getElem?_append_left hlt]; exact hgx
+  have hfull : ∀ x ∈ assigns asInt p b, (expand pad abi vs)[x.1]? = some x.2 := hg pad
   have hs' := hs
   simp only [shapeOk, Bool.and_eq_true, beq_iff_eq] at hs'
   obtain ⟨⟨⟨hj, hsb⟩, hpl⟩, ho⟩ := hs'
